@@ -48,8 +48,22 @@ ApplyGate(g) ==
   IN /\ Gam' = Force(MMul(Force(MMul(E, Gam)), Force(MDag(E))))
      /\ mu' = ForceRow(newMu, 1, <<>>)
 
+(* Attenuator(theta, nbar): the mode is mixed with a thermal bath on a beamsplitter, a -> cos(theta) a + sin(theta) b.      *)
+(* g.P[1][1] = cos(theta), g.A[1][1] = sin^2(theta), g.alpha[1] = nbar (all fractions).  Not unitary: a Gaussian channel. *)
+ApplyAtten(g) ==
+  LET k == g.modes[1] + 1  c == g.P[1][1]  s2 == g.A[1][1]  nb == g.alpha[1]
+      Scale(i) == IF i = k \/ i = D + k THEN c ELSE Q1 IN
+  /\ Gam' = Force([i \in 1..(2 * D) |-> [j \in 1..(2 * D) |->
+               QAdd(QMul(QMul(Scale(i), Scale(j)), Gam[i][j]),
+                    IF i = k /\ j = k THEN QMul(s2, QAdd(nb, Q1))              \* <b b^dagger> = nbar + 1
+                    ELSE IF i = D + k /\ j = D + k THEN QMul(s2, nb)            \* <b^dagger b> = nbar
+                    ELSE Q0)]])
+  /\ mu' = ForceRow([i \in 1..D |-> IF i = k THEN QMul(c, mu[i]) ELSE mu[i]], 1, <<>>)
+
+IsChannel(g) == "chan" \in DOMAIN g /\ g.chan
 Next == /\ depth < MaxDepth
-        /\ \E gi \in 1..Len(Gates) : /\ ApplyGate(Gates[gi]) /\ depth' = depth + 1 /\ hist' = Append(hist, gi)
+        /\ \E gi \in 1..Len(Gates) : /\ (IF IsChannel(Gates[gi]) THEN ApplyAtten(Gates[gi]) ELSE ApplyGate(Gates[gi]))
+                                       /\ depth' = depth + 1 /\ hist' = Append(hist, gi)
 Spec == Init /\ [][Next]_vars
 ------------------------------------------------------------------------------
 (* ---- theorems on the specification ---- *)
@@ -59,7 +73,7 @@ KMat(n) == [i \in 1..(2 * n) |-> [j \in 1..(2 * n) |-> IF i = j THEN (IF i <= n 
 GateSymplectic(g) == LET S == Force(SOf(g)) k == Len(g.modes) IN MEq(MMul(MMul(S, KMat(k)), MDag(S)), KMat(k))
 GatePassiveUnitary(g) == g.passive => (/\ \A i, j \in 1..Len(g.modes) : QIsZero(g.A[i][j])
                                        /\ MEq(MMul(g.P, MDag(g.P)), MId(Len(g.modes))))
-ASSUME \A gi \in 1..Len(Gates) : GateSymplectic(Gates[gi]) /\ GatePassiveUnitary(Gates[gi])
+ASSUME \A gi \in 1..Len(Gates) : IsChannel(Gates[gi]) \/ (GateSymplectic(Gates[gi]) /\ GatePassiveUnitary(Gates[gi]))
 
 (* reachable states: Gam Hermitian, canonical commutation relations carried by Gam, G symmetric *)
 GamHermitian == MEq(Gam, MDag(Gam))
